@@ -744,7 +744,8 @@ func (c *Conn) recv(ctx context.Context) error {
 	if err != nil {
 		// only net errors should cause the connection to be closed. Though
 		// cassandra returning corrupt frames will be returned here as well.
-		if _, ok := err.(net.Error); ok {
+		var netErr net.Error
+		if errors.As(err, &netErr) {
 			return err
 		}
 	}
